@@ -192,6 +192,15 @@ def apply_edit(draw, model):
 @st.composite
 def cases(draw, max_feats):
     m = draw(S.model_specs(c03.ANY, 1, max_feats))
+    if draw(st.integers(0, 3)) == 0:
+        # two groups with the same owner and cardinality (the ordering of relations matters for equality)
+        owner = draw(st.sampled_from(_feats(m)))
+        lo, hi = draw(st.sampled_from([(1, 1), (1, 2), (0, 1), (0, 2), (2, 2)]))
+        for _ in range(2):
+            kids = [build.feat(_fresh(m, draw(S.ident_names(4)))) for _ in range(2)]
+            if kids[0]["name"].lower() == kids[1]["name"].lower():
+                kids[1]["name"] = kids[1]["name"] + "_2"
+            owner["rels"].append(build.rel(lo, hi, kids))
     mp = permute(draw, m)
     edits = []
     for _ in range(draw(st.integers(1, 3))):
